@@ -25,7 +25,7 @@ def drive_and_judge(work, binary, runs, mode, name, racebin=None, test='TestTunn
                 f.write(json.dumps(r) + '\n')
         trace = os.path.join(d, 'trace.ndjson')
         info = vlib.run_driver(racebin or binary, test, sched, trace, mode=mode,
-                               env_extra={'GORACE': 'halt_on_error=1'} if racebin else None)
+                               env_extra={'GORACE': 'halt_on_error=0'} if racebin else None)
         nev = sum(1 for _ in open(trace))
         rc, out = vlib.tlc(work, tracemod, env_extra={'TRACE': trace}, name='%s_%d' % (name, ix), timeout=900)
         bad, notes, done = vlib.parse_flags(out)
